@@ -181,6 +181,40 @@ class Producers:
                 found = st["init"]
         return found
 
+    def _let_tuple_component(self, f, name):
+        """`let (a, b) = (x, y);` / `let (a, b) = self.pair_of(..);` where pair_of ends in a tuple expression: the expression that `name` stands
+        for, with the function and parameter environment it is to be evaluated in"""
+        for st in self._stmts(f):
+            if st.get("k") != "let" or st.get("init") is None:
+                continue
+            pat = st["pat"]["pat"] if st["pat"].get("k") == "typed" else st["pat"]
+            if pat.get("k") != "tuple":
+                continue
+            idx = None
+            for i, sub in enumerate(pat["elems"]):
+                if pat_bindings(sub) == [name]:
+                    idx = i
+            if idx is None:
+                continue
+            init = st["init"]
+            while init.get("k") in ("paren",):
+                init = init["expr"]
+            if init.get("k") == "tuple" and idx < len(init["elems"]):
+                return (init["elems"][idx], f, None)
+            callee = init["method"] if init.get("k") == "mcall" and expr_text(init["recv"]) == "self" else (
+                init["func"]["segs"][-1] if init.get("k") == "call" and init["func"].get("k") == "path" else None)
+            if callee:
+                for g in [x for x in self.S.fns if x.name == callee and x.body]:
+                    tail = g.body[-1]
+                    te = tail["e"] if tail.get("k") == "expr" and not tail.get("semi") else None
+                    while isinstance(te, dict) and te.get("k") == "paren":
+                        te = te["expr"]
+                    if isinstance(te, dict) and te.get("k") == "tuple" and idx < len(te["elems"]):
+                        params = [p["pat"]["name"] for p in g.sig.get("params", []) if p.get("pat") and p["pat"].get("name")]
+                        args = [self.expr(a, f, {}, (), 1) for a in init["args"]]
+                        return (te["elems"][idx], g, dict(zip(params, args)))
+        return None
+
     def _pushes_ctx(self, f, name):
         """[(pushed expression, [(condition, truth) ...enclosing ifs])] for `name.push(..)` / `name.push_str(..)` anywhere in f"""
         out = []
@@ -260,15 +294,24 @@ class Producers:
                 out |= self.expr(e["r"], f, {}, stack + (key,))
         if n == 0:
             # structs that are only ever built by a literal (GlobalContext)
+            sites = []
             for f in self.S.fns:
                 if f.body is None:
                     continue
                 for e in walk_block(f.body):
                     if e.get("k") == "struct" and e["path"][-1] in (struct, "Self") and (e["path"][-1] == struct or f.owner == struct):
-                        for fe in e["fields"]:
-                            if fe["member"] == fld:
-                                n += 1
-                                out |= self.expr(fe["expr"], f, {}, stack + (key,))
+                        sites.append((f, e))
+            # placeholder values of a constructor (`new()` filling every field with an empty default) do not survive when the value handed on is
+            # a *complete* literal built elsewhere (every field given, no `..base`): only that literal's fields reach the templates
+            nfields = len((self.S.structs.get(struct) or {}).get("fields", []))
+            complete = [(f, e) for (f, e) in sites if f.name not in ("new", "default") and not e.get("rest") and nfields and len(e["fields"]) == nfields]
+            if complete:
+                sites = [(f, e) for (f, e) in sites if f.name not in ("new", "default")]
+            for (f, e) in sites:
+                for fe in e["fields"]:
+                    if fe["member"] == fld:
+                        n += 1
+                        out |= self.expr(fe["expr"], f, {}, stack + (key,))
         if n == 0:
             out |= UNKNOWN
             self.notes.append("no producer found for %s.%s" % (struct, fld))
@@ -618,6 +661,10 @@ class Producers:
             if v in env:
                 return env[v]
             init = self._let_init(f, v)
+            comp = self._let_tuple_component(f, v) if init is not None else None
+            if comp is not None:
+                ce, cf, cenv = comp
+                return self.expr(ce, cf, cenv if cf is not f else env, stack, depth + 1)
             if init is not None:
                 out = set(self.expr(init, f, env, stack, depth + 1))
                 pushes = self._pushes_ctx(f, v)
